@@ -391,6 +391,7 @@ macro_rules! decode_arbitrary_harness {
     ($($name:ident, $n:expr;)*) => {$(
         /// @prop C08 C09
         /// @tier quick
+        /// @covers any
         /// @fn chmux::msg::MultiplexMsg::read
         /// @fn chmux::msg::ExchangedCfg::read
         /// @bounds a frame of concrete length (family: 0, 1, 5, 6, 10, 14 bytes) whose bytes are all symbolic, including the message code
